@@ -93,7 +93,7 @@ theorem dot1q_tagFor_lt (cx : Ctx) (q : Dot1Q) (h : q.WF) : Dot1Q.tagFor cx q < 
   · decide
   · dsimp only
     split
-    · exact etherOfPduType_lt _
+    · exact etherTagOf_lt _
     · exact h.ptype
 
 def dot1qSem (cx : Ctx) (q : Dot1Q) : LayerSem :=
@@ -160,8 +160,8 @@ theorem dot1q_reparse (cx : Ctx) (q : Dot1Q) (h : q.WF) (region : Bytes)
   simp only [h1, if_false]
 
 /-- the tag is kept when the payload class has no EtherType -/
-theorem dot1q_tag_kept (cx : Ctx) (q : Dot1Q) (cls : String) (hc : cx.innerCls = some cls)
-    (hu : Tags.etherOfPduType (Tags.pduTypeOf cls) = 0) : Dot1Q.tagFor cx q = q.ptype := by
+theorem dot1q_tag_kept (cx : Ctx) (q : Dot1Q) (i : LayerInfo) (hc : cx.inners.head? = some i)
+    (hu : etherTagOf i = 0) : Dot1Q.tagFor cx q = q.ptype := by
   unfold Dot1Q.tagFor
   rw [hc]; simp [hu]
 
